@@ -303,7 +303,15 @@ impl ColumnBuffer {
         self.length += count;
     }
 
-    pub fn finalize(self, name: &str) -> Arc<Column> {
+    pub fn finalize(mut self, name: &str) -> Arc<Column> {
+        // Trailing NULLs never touch the null map, which is only grown when a bit is set.
+        // Readers that slice the map by row range rely on it covering every row.
+        if let Some(present) = self.present.as_mut() {
+            let bytes = self.length.div_ceil(8);
+            if present.len() < bytes {
+                present.resize(bytes, 0);
+            }
+        }
         match self.buffer {
             TypedBuffer::Empty => Arc::new(Column::null(name, self.length)),
             TypedBuffer::Int(buffer) => buffer.finalize(name, self.present),
